@@ -8,7 +8,6 @@ import (
 	"runtime"
 	"sort"
 	"sync"
-	"time"
 
 	"verif/fw/bindfacts"
 )
@@ -134,32 +133,4 @@ func extractAll(us []bindfacts.Unit, par int) ([]*bindfacts.Facts, *loaders, err
 		}
 	}
 	return res, ls, nil
-}
-
-func probe() {
-	t0 := time.Now()
-	us, err := units("/repo", os.Getenv("ALLPLAT") != "")
-	if err != nil {
-		panic(err)
-	}
-	fs, _, err := extractAll(us, 16)
-	if err != nil {
-		panic(err)
-	}
-	ne, nm := 0, 0
-	forms := map[string]int{}
-	for _, f := range fs {
-		ne += len(f.Entries)
-		nm += len(f.Methods)
-		if len(f.Unit.TypeErrors) > 0 {
-			fmt.Println("TYPEERR", f.Unit.Table, f.Unit.Rel, f.Unit.Plat, f.Unit.TypeErrors[:1])
-		}
-		for _, e := range f.Entries {
-			forms[e.Form]++
-			if e.Form == "other" {
-				fmt.Println("OTHER", e.File, e.Key, e.Name, e.Text)
-			}
-		}
-	}
-	fmt.Println("units", len(us), "entries", ne, "methods", nm, forms, time.Since(t0))
 }
